@@ -96,8 +96,9 @@ Proof.
     split; [apply sbody_kok; exact S1 | apply (H kv Hk); exact S2].
 Qed.
 
-(* a raw message the legacy package may hold: not the text null (a decoded null is the nil node),
-   no duplicate names, number literals well formed, strings plain *)
+(* a raw message the legacy package may hold: no duplicate names, number literals well formed, strings
+   plain.  raw4: moreover not null (a decoded null is the nil node); the node NRaw TNull is the
+   operation value null (ImplV4.raw_nil4: a lazyNode with a nil raw message), which a state may hold *)
 Definition rawok (t : tjson) : Prop := tnodup t = true /\ tlit t = true /\ tplain t /\ tkeys t.
 Definition raw4 (t : tjson) : Prop := t <> TNull /\ rawok t.
 
@@ -105,9 +106,11 @@ Definition raw4 (t : tjson) : Prop := t <> TNull /\ rawok t.
 Fixpoint ngood4 (n : node) : Prop :=
   match n with
   | NNil => True
-  | NRaw t => raw4 t
-  | NDoc _ obj =>
-      NoDup (map fst obj) /\ Forall utf8 (map fst obj) /\
+  | NRaw t => rawok t
+  | NDoc ks obj =>
+      (* a live map (key list []); the two tagged nodes raw_null4 / nil_doc4 (the raw text null a copy
+         of a non-nil null stores, and what a walk through it leaves) are NOT in the invariant *)
+      ks = [] /\ NoDup (map fst obj) /\ Forall utf8 (map fst obj) /\
       (fix all (m : list (bytes * node)) : Prop :=
          match m with [] => True | kv :: r => ngood4 (snd kv) /\ all r end) obj
   | NAry ns =>
@@ -119,9 +122,9 @@ Fixpoint ngood4 (n : node) : Prop :=
 Definition ogood4 (obj : list (bytes * node)) : Prop :=
   NoDup (map fst obj) /\ Forall utf8 (map fst obj) /\ Forall (fun kv => ngood4 (snd kv)) obj.
 
-Lemma ngood4_doc ks obj : ngood4 (NDoc ks obj) <-> ogood4 obj.
+Lemma ngood4_doc ks obj : ngood4 (NDoc ks obj) <-> ks = [] /\ ogood4 obj.
 Proof.
-  unfold ogood4. cbn [ngood4]. split; intros [H1 [H0 H2]]; (split; [exact H1|]; split; [exact H0|]); clear H1 H0.
+  unfold ogood4. cbn [ngood4]. split; intros [Hk [H1 [H0 H2]]]; (split; [exact Hk|]; split; [exact H1|]; split; [exact H0|]); clear Hk H1 H0.
   - induction obj as [|kv obj IH]; constructor; destruct H2; auto.
   - induction obj as [|kv obj IH]; [exact I|]. inversion H2 as [|? ? Ha Hb]; subst. split; [exact Ha | apply IH; exact Hb].
 Qed.
@@ -135,14 +138,17 @@ Qed.
 Arguments ngood4 : simpl never.
 
 Lemma ngood4_nil : ngood4 NNil. Proof. exact I. Qed.
-Lemma ngood4_raw t : ngood4 (NRaw t) <-> raw4 t. Proof. reflexivity. Qed.
+Lemma ngood4_raw t : ngood4 (NRaw t) <-> rawok t. Proof. reflexivity. Qed.
+Lemma ngood4_raw4 t : raw4 t -> ngood4 (NRaw t). Proof. intros [_ R]. exact R. Qed.
+Lemma ngood4_raw_nn t : ngood4 (NRaw t) -> t <> TNull -> raw4 t. Proof. intros R N. split; [exact N | exact R]. Qed.
+Lemma ngood4_raw_nil : ngood4 raw_nil4. Proof. repeat split. Qed.
 
 Definition cval4 (c : con4) : ojson := aval4 (node_of_con4 c).
 Definition cgood4 (c : con4) : Prop := ngood4 (node_of_con4 c) /\ c <> DDocNil.
 
 Lemma cgood4_doc obj : cgood4 (DDoc obj) <-> ogood4 obj.
 Proof.
-  unfold cgood4. cbn [node_of_con4]. rewrite ngood4_doc. split; [tauto|]. intro H. split; [exact H | discriminate].
+  unfold cgood4. cbn [node_of_con4]. rewrite ngood4_doc. split; [tauto|]. intro H. split; [split; [reflexivity | exact H] | discriminate].
 Qed.
 
 Lemma cgood4_ary ns : cgood4 (DAry ns) <-> Forall ngood4 ns.
@@ -185,7 +191,7 @@ Lemma raw4_arr l : raw4 (TArr l) -> Forall (fun t => ngood4 (child t)) l.
 Proof.
   intros [_ [T [L [P K]]]]. apply tnodup_arr in T. apply tplain_arr in P. apply tkeys_arr in K. simpl in L. rewrite forallb_forall in L.
   rewrite Forall_forall in *. intros t Ht. specialize (T _ Ht). specialize (P _ Ht). specialize (L _ Ht). specialize (K _ Ht).
-  destruct t; try exact I; (split; [discriminate|]; split; [exact T|]; split; [exact L |]; split; [exact P | exact K]).
+  destruct t; try exact I; (split; [exact T|]; split; [exact L |]; split; [exact P | exact K]).
 Qed.
 
 Lemma raw4_obj ms : raw4 (TObj ms) ->
@@ -197,7 +203,7 @@ Proof.
   - rewrite Forall_map. rewrite Forall_forall in *. intros kv Hk. exact (proj2 (proj1 (K _ Hk))).
   - rewrite Forall_forall in *. intros kv Hk. specialize (T _ Hk). specialize (P _ Hk). specialize (L _ Hk).
     pose proof (proj2 (K _ Hk)) as K2.
-    destruct (snd kv); try exact I; (split; [discriminate|]; split; [exact T|]; split; [exact L |]; split; [exact P | exact K2]).
+    destruct (snd kv); try exact I; (split; [exact T|]; split; [exact L |]; split; [exact P | exact K2]).
 Qed.
 
 Lemma obj_of_nodup ms :
@@ -231,10 +237,13 @@ Lemma into_con4_sim v :
 Proof.
   intro G. destruct v as [|t|ks obj|ns]; cbn [aval4 into_con4].
   - reflexivity.
-  - apply ngood4_raw in G. destruct t; try reflexivity.
-    + simpl is_container. destruct (parsed4_arr l G) as [P1 P2]. exists (DAry (map child l)). auto.
-    + destruct (parsed4_obj ms G) as [P1 P2]. rewrite <- P1. simpl is_container. exists (DDoc (obj_of ms)). auto.
-  - simpl is_container. exists (DDoc obj). split; auto. split; [reflexivity|]. split; [exact G | discriminate].
+  - destruct t; try reflexivity.
+    + apply ngood4_raw_nn in G; [|discriminate].
+      simpl is_container. destruct (parsed4_arr l G) as [P1 P2]. exists (DAry (map child l)). auto.
+    + apply ngood4_raw_nn in G; [|discriminate].
+      destruct (parsed4_obj ms G) as [P1 P2]. rewrite <- P1. simpl is_container. exists (DDoc (obj_of ms)). auto.
+  - pose proof (proj1 (proj1 (ngood4_doc ks obj) G)) as Ek. subst ks.
+    simpl is_container. exists (DDoc obj). split; auto. split; [reflexivity|]. split; [exact G | discriminate].
   - simpl is_container. exists (DAry ns). split; auto. split; [reflexivity|]. split; [exact G | discriminate].
 Qed.
 
@@ -543,7 +552,7 @@ Proof. unfold opv4, op_value4, ref_value. destruct (aget (B "value") op) as [[t|
 
 Lemma opv4_good op : val_good4 op -> ngood4 (opv4 op).
 Proof.
-  unfold val_good4, opv4, op_value4. destruct (aget (B "value") op) as [[t|]|]; intro H; [exact H | exact I | exact I].
+  unfold val_good4, opv4, op_value4. destruct (aget (B "value") op) as [[t|]|]; intro H; [exact (proj2 H) | exact ngood4_raw_nil | exact I].
 Qed.
 
 (* one unfolding of step4 per operation kind *)
@@ -566,7 +575,7 @@ Definition unit_fn4 (c' : con4) (_ : bytes) : unit * con4 := (tt, c').
 Definition test_fn4 (g : opts4) (op : operation) (c' : con4) (key : bytes) : res unit * con4 :=
   match con4_get g c' key with
   | Ok v =>
-      if is_null4 v then ((if is_null4 (opv4 op) then Ok tt else Err ETestFailed), c')
+      if is_null4 v then ((if null4 (opv4 op) then Ok tt else Err ETestFailed), c')
       else match op_value4 op with
            | None => (Err ETestFailed, c')
            | Some ov => ((if node_equal4 v ov then Ok tt else Err ETestFailed), c')
@@ -892,10 +901,11 @@ Inductive shape_ok4 : node -> shape -> Prop :=
 | Sh4Ary n l : aval4 n = OArr (map aval4 l) ->
                (forall v, In v l -> ngood4 v /\ (nsize v < nsize n)%nat) -> shape_ok4 n (SAry l).
 
-Lemma shape4_ok n : ngood4 n -> is_null4 n = false -> shape_ok4 n (shape4 n).
+Lemma shape4_ok n : ngood4 n -> null4 n = false -> shape_ok4 n (shape4 n).
 Proof.
   intros G NN. destruct n as [|t|ks obj|ns]; try discriminate.
-  - apply ngood4_raw in G. pose proof G as [N0 [T [L [P _]]]].
+  - assert (N0 : t <> TNull) by (intro E; subst t; discriminate).
+    apply (fun G => ngood4_raw_nn t G N0) in G. pose proof G as [_ [T [L [P _]]]].
     destruct t; try congruence; cbn [shape4];
       try (apply Sh4Leaf; [reflexivity | split; [exact I | exact L] | exact P]).
     + (* raw array *)
@@ -911,7 +921,7 @@ Proof.
       * intros k v Hin. apply in_map_iff in Hin as [[k0 t0] [E Hin]]. inversion E; subst.
         rewrite Forall_forall in F. split; [apply (F _ Hin)|].
         rewrite nsize_child. simpl. pose proof (fold_tsize_in ms (k0, t0) Hin). simpl in *. lia.
-  - apply ngood4_doc in G as [N [_ Gs]]. cbn [shape4]. apply Sh4Doc; [reflexivity|].
+  - apply ngood4_doc in G as [_ [N [_ Gs]]]. cbn [shape4]. apply Sh4Doc; [reflexivity|].
     intros k v Hin. rewrite Forall_forall in Gs. split; [apply (Gs _ Hin)|].
     simpl. pose proof (fold_nsize_in obj (k, v) Hin). simpl in *. lia.
   - apply ngood4_ary in G. cbn [shape4]. apply Sh4Ary; [reflexivity|].
@@ -919,15 +929,21 @@ Proof.
     simpl. pose proof (fold_nsize_in_l ns v Hin). lia.
 Qed.
 
-Lemma is_null4_onull n : ngood4 n -> is_null4 n = onull (aval4 n).
+(* isNull (nil node, nil raw message; the raw text null is not in the invariant) is: the value is null *)
+Lemma null4_onull n : ngood4 n -> null4 n = onull (aval4 n).
 Proof.
   intro G. destruct n as [|t|ks obj|ns]; try reflexivity.
-  apply ngood4_raw in G. destruct G as [N0 _]. destruct t; try reflexivity. congruence.
+  - destruct t; reflexivity.
+  - apply ngood4_doc in G as [-> _]. reflexivity.
 Qed.
+
+(* n == nil implies that; the converse fails exactly for the operation value null (raw_nil4) *)
+Lemma is_null4_null4 n : is_null4 n = true -> n = NNil.
+Proof. destruct n; try discriminate. reflexivity. Qed.
 
 Lemma equal4_unfold f n o :
   equal4 (S f) n o =
-  if is_null4 n || is_null4 o then is_null4 n && is_null4 o else
+  if null4 n || null4 o then null4 n && null4 o else
   match shape4 n, shape4 o with
   | SLeaf a, SLeaf b => leaf4_equal a b
   | SLeaf _, _ => false
@@ -939,7 +955,7 @@ Lemma equal4_unfold f n o :
   | SAry _, _ => false
   end.
 Proof.
-  cbn [equal4]. destruct (is_null4 n || is_null4 o); auto.
+  cbn [equal4]. destruct (null4 n || null4 o); auto.
   destruct (shape4 n), (shape4 o); auto. f_equal.
   revert ns0. induction ns as [|x l IH]; intros [|y l']; simpl; auto. now rewrite IH.
 Qed.
@@ -949,14 +965,14 @@ Theorem equal4_spec : forall fuel n o,
 Proof.
   induction fuel as [|f IH]; intros n o Hf Gn Go.
   { destruct n; simpl in Hf; try lia; pose proof (tsize_pos t); lia. }
-  rewrite equal4_unfold, (is_null4_onull n Gn), (is_null4_onull o Go).
+  rewrite equal4_unfold, (null4_onull n Gn), (null4_onull o Go).
   destruct (onull (aval4 n)) eqn:Nn.
   { destruct (aval4 n); try discriminate. cbn [orb andb]. symmetry. apply jeq_null_l. }
   destruct (onull (aval4 o)) eqn:No.
   { destruct (aval4 o); try discriminate. cbn [orb andb]. rewrite jeq_null_r. symmetry. exact Nn. }
   cbn [orb].
-  assert (NNn : is_null4 n = false) by (rewrite is_null4_onull; auto).
-  assert (NNo : is_null4 o = false) by (rewrite is_null4_onull; auto).
+  assert (NNn : null4 n = false) by (rewrite null4_onull; auto).
+  assert (NNo : null4 o = false) by (rewrite null4_onull; auto).
   pose proof (shape4_ok n Gn NNn) as Sn. pose proof (shape4_ok o Go NNo) as So.
   inversion Sn as [n1 a Ea Ha Pa Eq1|n1 m Ea Cm Eq1|n1 l Ea Cl Eq1]; subst n1;
     inversion So as [o1 b Eb Hb Pb Eq2|o1 m' Eb Cm' Eq2|o1 l' Eb Cl' Eq2]; subst o1;
@@ -996,9 +1012,9 @@ Proof. intros. unfold node_equal4. apply equal4_spec; auto. Qed.
 (* ---- test ---- *)
 Lemma test_value_rel4 v ov : ngood4 v -> ngood4 ov ->
   jeq (aval4 v) (aval4 ov) =
-  if is_null4 v then is_null4 ov else if is_null4 ov then false else node_equal4 v ov.
+  if null4 v then null4 ov else if null4 ov then false else node_equal4 v ov.
 Proof.
-  intros Gv Go. rewrite (is_null4_onull v Gv), (is_null4_onull ov Go).
+  intros Gv Go. rewrite (null4_onull v Gv), (null4_onull ov Go).
   destruct (onull (aval4 v)) eqn:N1.
   - destruct (aval4 v); try discriminate. apply jeq_null_l.
   - destruct (onull (aval4 ov)) eqn:N2.
@@ -1006,27 +1022,40 @@ Proof.
     + symmetry. apply node_equal4_spec; auto.
 Qed.
 
+(* a test WITHOUT value member against a member that is there: the package compares the nil
+   pointer, and fails on the operation value null (a non-nil node), where the reference compares
+   null = null.  The leaf lemma therefore asks for a value member unless the member is absent. *)
+Definition has_value4 (op : operation) : Prop := aget (B "value") op <> None.
+
 Lemma test_leaf4_sim g op cp key :
   cgood4 cp -> tok_dom4 key -> val_good4 op ->
+  (has_value4 op \/ child_at (d4 g) (cval4 cp) key = None) ->
   match test_leaf (d4 g) (ref_value op) (cval4 cp) key with
   | ROk j' => exists a cp', test_fn4 g op cp key = (Ok a, cp') /\ cval4 cp' = j' /\ cgood4 cp' /\ True
   | RFail cz => exists e cp', test_fn4 g op cp key = (Err e, cp') /\ cause_rel cz e
   end.
 Proof.
-  intros G D Vg. pose proof (opv4_good op Vg) as Go. pose proof (con4_get_sim g cp key G D) as CG.
+  intros G D Vg HV. pose proof (opv4_good op Vg) as Go. pose proof (con4_get_sim g cp key G D) as CG.
   pose proof (cgood4_container cp G) as Cc. unfold test_fn4. rewrite <- opv4_aval.
   (* the comparison the legacy code makes on the node it read *)
-  assert (Cmp : forall v, ngood4 v ->
-            (if is_null4 v then ((if is_null4 (opv4 op) then Ok tt else Err ETestFailed), cp)
+  assert (CmpNil :
+            (if is_null4 NNil then ((if null4 (opv4 op) then Ok tt else Err ETestFailed), cp)
+             else match op_value4 op with
+                  | None => (Err ETestFailed, cp)
+                  | Some ov => ((if node_equal4 NNil ov then Ok tt else Err ETestFailed), cp)
+                  end) = ((if jeq (aval4 NNil) (aval4 (opv4 op)) then Ok tt else Err ETestFailed), cp)).
+  { cbn [is_null4 aval4]. rewrite jeq_null_l, (null4_onull _ Go). reflexivity. }
+  assert (Cmp : has_value4 op -> forall v, ngood4 v ->
+            (if is_null4 v then ((if null4 (opv4 op) then Ok tt else Err ETestFailed), cp)
              else match op_value4 op with
                   | None => (Err ETestFailed, cp)
                   | Some ov => ((if node_equal4 v ov then Ok tt else Err ETestFailed), cp)
                   end) = ((if jeq (aval4 v) (aval4 (opv4 op)) then Ok tt else Err ETestFailed), cp)).
-  { intros v Gv. rewrite (test_value_rel4 v (opv4 op) Gv Go). destruct (is_null4 v) eqn:Nv; [reflexivity|].
-    unfold opv4 in *. destruct (op_value4 op) as [ov|].
-    - destruct (is_null4 ov) eqn:No; [|reflexivity].
-      destruct ov; try discriminate. unfold node_equal4. change (nsize NNil) with 1%nat. rewrite Nat.add_1_r, equal4_unfold, Nv. reflexivity.
-    - reflexivity. }
+  { intros Hv v Gv. destruct (is_null4 v) eqn:Nv.
+    - apply is_null4_null4 in Nv. subst v. exact CmpNil.
+    - unfold opv4 in *. destruct (op_value4 op) as [ov|] eqn:Eo.
+      + rewrite (node_equal4_spec v ov Gv Go). reflexivity.
+      + exfalso. apply Hv. unfold op_value4 in Eo. destruct (aget (B "value") op) as [[t|]|]; [discriminate | discriminate | reflexivity]. }
   assert (Fin : forall x, (if jeq x (aval4 (opv4 op)) then ROk (cval4 cp) else RFail FTest) =
                           test_leaf (d4 g) (aval4 (opv4 op)) (cval4 cp) key ->
                 forall v, ngood4 v -> aval4 v = x ->
@@ -1038,13 +1067,14 @@ Proof.
     - exists tt, cp. auto.
     - exists ETestFailed, cp. split; reflexivity. }
   destruct (child_at (d4 g) (cval4 cp) key) as [j|] eqn:Ech.
-  - destruct CG as [v [H1 [H2 H3]]]. rewrite H1, (Cmp v H3). apply (Fin j); auto.
+  - assert (Hv : has_value4 op) by (destruct HV as [Hv|Hv]; [exact Hv | discriminate]).
+    destruct CG as [v [H1 [H2 H3]]]. rewrite H1, (Cmp Hv v H3). apply (Fin j); auto.
     destruct (cval4 cp); try discriminate; cbn [child_at test_leaf] in *.
     + destruct (idx_existing (d4 g) (Rfc6902.zlen l) key) as [n|]; try discriminate.
       inversion Ech; subst. reflexivity.
     + rewrite Ech. reflexivity.
   - destruct cp as [obj| |ns]; [| destruct G as [_ G]; congruence |].
-    + rewrite CG, (Cmp NNil ngood4_nil). apply (Fin ONull); auto; [|exact ngood4_nil].
+    + rewrite CG, CmpNil. apply (Fin ONull); auto; [|exact ngood4_nil].
       unfold cval4 in *. cbn [node_of_con4 aval4 child_at test_leaf] in *. rewrite Ech. reflexivity.
     + destruct CG as [e [H1 H2]]. rewrite H1.
       unfold cval4 in *. cbn [node_of_con4 aval4 child_at test_leaf] in *.
@@ -1055,15 +1085,18 @@ Qed.
 Lemma step4_test_sim g st op r :
   sgood4 st -> op_kind op = KTest ->
   op_str op (B "path") = Ok (x2f :: r) -> Forall tok_dom4 (map decode_token (split_slash r)) -> val_good4 op ->
+  (has_value4 op \/
+   forall p, descend (d4 g) (map decode_token (path_parts r)) (sval4 st) = Some p -> child_at (d4 g) p (path_key r) = None) ->
   match at_parent (d4 g) (ptoks r) (sval4 st) (test_leaf (d4 g) (ref_value op)) with
   | ROk j' => exists st', step4 g st op = Ok st' /\ sval4 st' = j' /\ sgood4 st' /\ acc4 st' = acc4 st
   | RFail cz => exists e, step4 g st op = Err e /\ cause_rel cz e
   end.
 Proof.
-  intros G K Hp D Vg. rewrite (step4_test g st op K), Hp. apply lift4_keep.
+  intros G K Hp D Vg HV. rewrite (step4_test g st op K), Hp. apply lift4_keep.
   apply (find4_at_parent g (r4 st) r (test_fn4 g op) (test_leaf (d4 g) (ref_value op)) (fun _ => True) G D).
   - intros p t Cp. apply (proj1 (proj2 (proj2 (proj2 (leaf_noncontainer (d4 g) p t Cp))))).
-  - intros cp Gcp _. apply test_leaf4_sim; auto. apply (proj2 (dom_split4 r D)).
+  - intros cp Gcp Ed. apply test_leaf4_sim; auto; [apply (proj2 (dom_split4 r D))|].
+    destruct HV as [Hv|Ha]; [left; exact Hv | right; apply Ha; exact Ed].
 Qed.
 
 (* test on the whole document *)
@@ -1072,17 +1105,21 @@ Lemma step4_test_root_sim g st op :
   step4 g st op = if jeq (sval4 st) (ref_value op) then Ok st else Err ETestFailed.
 Proof.
   intros G K Hp Vg. pose proof (opv4_good op Vg) as Go. rewrite (step4_test g st op K), Hp.
-  rewrite (node_equal4_spec _ _ (proj1 G) Go), (is_null4_onull _ Go), opv4_aval.
+  rewrite (node_equal4_spec _ _ (proj1 G) Go).
   fold (cval4 (r4 st)). fold (sval4 st).
   pose proof (cgood4_container (r4 st) G) as Cc. fold (sval4 st) in Cc.
-  destruct (ref_value op); try (rewrite andb_true_r; reflexivity).
-  cbn [onull negb]. rewrite andb_false_r, jeq_null_r. destruct (sval4 st); try discriminate; reflexivity.
+  pose proof (opv4_aval op) as Ev. rewrite <- Ev.
+  destruct (opv4 op) as [|t|ks obj|ns]; cbn [is_null4 negb]; rewrite ?andb_true_r; try reflexivity.
+  cbn [aval4]. rewrite andb_false_r, jeq_null_r. destruct (sval4 st); try discriminate; reflexivity.
 Qed.
 
 (* ---- the reference with the documented legacy deviations ---- *)
-(* The legacy package differs from RFC 6902 exactly where the reference reports an absent object
+(* The legacy package differs from RFC 6902 where the reference reports an absent object
    member (FMissingMember) for a replace or a copy: a replace of an absent member adds it; a copy
-   whose source member is absent copies null (get reads an absent member as nil). *)
+   whose source member is absent copies null (get reads an absent member as nil).  These two are
+   built into rfc4_step.  A THIRD deviation is excluded by hypothesis instead (copy_clean4 /
+   no_null_copy4 below): a copy of a null that the patch itself wrote is stored as the raw text null,
+   and a later path through it is walked like an empty object (ImplV4.raw_null4, V4NullWalk.v). *)
 Definition as_add (o : rop) (v : option ojson) : rop := mkRop OpAdd (rpath o) (rfrom o) v.
 
 Definition rfc4_step (d : dialect) (doc : ojson) (o : rop) : Rfc6902.res ojson :=
@@ -1129,7 +1166,8 @@ Definition op_dom4 (op : operation) : Prop :=
     match op_kind op with
     | KAdd | KRemove => ptr_ok4 path
     | KReplace => ptr_ok4 path \/ (path = [] /\ exists t, aget (B "value") op = Some (Some t))
-    | KTest => ptr_ok4 path \/ path = []
+    | KTest => (ptr_ok4 path /\ has_value4 op) \/ path = []   (* RFC 6902: test MUST carry a value; without one the
+                                                                 package fails on a member holding the operation value null *)
     | KMove | KCopy => ptr_ok4 path /\ exists from, op_str op (B "from") = Ok from /\ ptr_ok4 from
     | KUnknown => False
     end.
@@ -1188,9 +1226,9 @@ Proof.
       apply bind_nonempty. apply ptoks_nonempty. }
     rewrite E. destruct (bind _ _) as [j'|cz]; [exact S|]. destruct cz; exact S.
   - (* test *)
-    destruct K as [[r [-> D]]| ->].
+    destruct K as [[[r [-> D]] Hv]| ->].
     + rewrite ptr_tokens_slash. fold (ptoks r). rewrite (bind_nonempty _ _ _ (ptoks_nonempty r)).
-      pose proof (step4_test_sim g st op r G Ek Hp D Vg) as S.
+      pose proof (step4_test_sim g st op r G Ek Hp D Vg (or_introl Hv)) as S.
       destruct (at_parent _ _ _ _) as [j'|cz]; [exact S|]. destruct cz; exact S.
     + cbn [ptr_tokens]. rewrite (step4_test_root_sim g st op G Ek Hp Vg).
       destruct (jeq (sval4 st) (ref_value op)).
@@ -1286,6 +1324,15 @@ From JP Require Import ParseFacts.
 
 Definition output4 (indent : bytes) (t : tjson) : bytes :=
   match indent with [] => print true t | _ => pp true indent 0 t end.
+
+(* the container Apply decodes the document into *)
+Definition api_start4 (t : tjson) : option con4 :=
+  match t with
+  | TObj ms => Some (DDoc (obj_of ms))
+  | TArr l => Some (DAry (map child l))
+  | TNull => Some DDocNil
+  | _ => None
+  end.
 
 Lemma start4_good t :
   root_container t = true -> raw4 t ->
@@ -1533,8 +1580,8 @@ Lemma ngood4_onodup n : ngood4 n -> onodup (aval4 n) = true.
 Proof.
   induction n using node_rect'; intro G.
   - reflexivity.
-  - apply ngood4_raw in G. exact (proj1 (proj2 G)).
-  - apply ngood4_doc in G as [N [_ Gs]]. cbn [aval4]. apply onodup_obj. split.
+  - apply ngood4_raw in G. exact (proj1 G).
+  - apply ngood4_doc in G as [_ [N [_ Gs]]]. cbn [aval4]. apply onodup_obj. split.
     + fold (msnd aval4 obj). rewrite msnd_keys. exact N.
     + rewrite Forall_map. rewrite Forall_forall in *. intros kv Hk. cbn [snd]. apply (H kv Hk). apply (Gs kv Hk).
   - apply ngood4_ary in G. cbn [aval4]. apply onodup_arr. rewrite Forall_map. rewrite Forall_forall in *.
@@ -1544,14 +1591,14 @@ Qed.
 (* ---- marshalling a node ---- *)
 Definition enc4 (v : node) : tjson := escape_tree true (render4 v).
 
-Lemma render4_doc ks obj :
-  render4 (NDoc ks obj) =
+Lemma render4_doc obj :
+  render4 (NDoc [] obj) =
   TObj (map (fun kv => (quote true (fst kv), snd kv)) (sort4 (msnd render4 obj))).
 Proof. reflexivity. Qed.
 
-Lemma enc4_doc ks obj :
+Lemma enc4_doc obj :
   Forall utf8 (map fst obj) -> NoDup (map fst obj) ->
-  enc4 (NDoc ks obj) = TObj (map (fun kv => (quote true (fst kv), snd kv)) (sort4 (msnd enc4 obj))).
+  enc4 (NDoc [] obj) = TObj (map (fun kv => (quote true (fst kv), snd kv)) (sort4 (msnd enc4 obj))).
 Proof.
   intros U N. unfold enc4 at 1. rewrite render4_doc, escape_tree_true, map_map. cbn [fst snd].
   assert (E : msnd enc4 obj = msnd (escape_tree true) (msnd render4 obj)) by (rewrite msnd_msnd; reflexivity).
@@ -1566,14 +1613,14 @@ Proof.
 Qed.
 
 Theorem enc4_codec v : ngood4 v ->
-  rawok (enc4 v) /\ jeq (den (enc4 v)) (aval4 v) = true /\ (v <> NNil -> enc4 v <> TNull).
+  rawok (enc4 v) /\ jeq (den (enc4 v)) (aval4 v) = true /\ (null4 v = false -> enc4 v <> TNull).
 Proof.
   induction v using node_rect'; intro G.
-  - (* nil *) split; [repeat split; reflexivity|]. split; [reflexivity | congruence].
-  - (* raw *) apply ngood4_raw in G as [N0 R]. destruct (escape_rawok t R) as [R' D]. unfold enc4. cbn [render4 aval4].
-    split; [exact R'|]. split; [rewrite D; apply jeq_refl; exact (proj1 R) | intros _; apply escape_nonnull; exact N0].
+  - (* nil *) split; [repeat split; reflexivity|]. split; [reflexivity | discriminate].
+  - (* raw *) apply ngood4_raw in G. pose proof G as R. destruct (escape_rawok t R) as [R' D]. unfold enc4. cbn [render4 aval4].
+    split; [exact R'|]. split; [rewrite D; apply jeq_refl; exact (proj1 R) | intros N0; apply escape_nonnull; intro E; subst t; discriminate].
   - (* parsed object *)
-    apply ngood4_doc in G as [N [U Gs]]. rewrite (enc4_doc keys obj U N).
+    apply ngood4_doc in G as [-> [N [U Gs]]]. rewrite (enc4_doc obj U N).
     set (S1 := sort4 (msnd enc4 obj)).
     assert (P1 : Permutation S1 (msnd enc4 obj)) by (apply sort4_perm; rewrite msnd_keys; exact N).
     assert (K1 : Permutation (map fst S1) (map fst obj)).
@@ -1593,7 +1640,7 @@ Proof.
       assert (E : map (fun x : bytes * tjson => (unquote (quote true (fst x)), den (snd x))) S1 = msnd den S1).
       { apply map_ext_in. intros kv Hk. f_equal. apply unquote_quote. apply (U1 kv Hk). }
       rewrite E. apply resolve_dups_nodup. rewrite msnd_keys. exact N1. }
-    split; [|split; [|discriminate]].
+    split; [|split; [|intros _; discriminate]].
     + split; [|split; [|split]].
       * unfold tnodup. rewrite D. apply onodup_obj. split; [rewrite msnd_keys; exact N1|].
         unfold msnd. rewrite Forall_map. apply Forall_forall. intros kv Hk. cbn [snd].
@@ -1615,7 +1662,7 @@ Proof.
     apply ngood4_ary in G. rewrite Forall_forall in H, G.
     assert (E : enc4 (NAry ns) = TArr (map enc4 ns)).
     { unfold enc4 at 1. cbn [render4]. rewrite escape_tree_true, map_map. reflexivity. }
-    rewrite E. split; [|split; [|discriminate]].
+    rewrite E. split; [|split; [|intros _; discriminate]].
     + split; [|split; [|split]].
       * apply tnodup_arr. rewrite Forall_map. apply Forall_forall. intros x Hx. exact (proj1 (proj1 (H x Hx (G x Hx)))).
       * cbn [tlit]. apply forallb_forall. intros t Ht. apply in_map_iff in Ht as [x [<- Hx]].
@@ -1628,12 +1675,32 @@ Proof.
       * apply IHn; intros y Hy; [apply H | apply G]; now right.
 Qed.
 
-Lemma deep_copy4_sim g v : ngood4 v ->
+(* deepCopy keeps the invariant and the value -- unless it is handed the operation value null
+   (raw_nil4 = NRaw TNull): that node is copied as the raw TEXT null (raw_null4), which findObject
+   enters like an empty object where the reference sees null; it is outside the invariant *)
+Lemma deep_copy4_raw_nil g : fst (deep_copy4 g raw_nil4) = raw_null4 /\ ~ ngood4 raw_null4.
+Proof. split; [reflexivity|]. intro G. apply ngood4_doc in G as [E _]. discriminate. Qed.
+
+Lemma deep_copy4_sim g v : ngood4 v -> v <> raw_nil4 ->
   ngood4 (fst (deep_copy4 g v)) /\ jeq (aval4 (fst (deep_copy4 g v))) (aval4 v) = true.
 Proof.
-  intro G. destruct (enc4_codec v G) as [R [J NN]].
-  destruct v as [|t|ks obj|ns]; [split; [exact I | reflexivity]| | |]; cbn [deep_copy4 fst aval4];
-    (split; [apply ngood4_raw; split; [apply NN; discriminate | exact R] | exact J]).
+  intros G NR. destruct (enc4_codec v G) as [R [J NN]].
+  destruct v as [|t|ks obj|ns]; [split; [exact I | reflexivity]| | |].
+  - assert (Nt : t <> TNull) by (intro E; subst t; apply NR; reflexivity).
+    assert (E : fst (deep_copy4 g (NRaw t)) = NRaw (enc4 (NRaw t))) by (destruct t; try reflexivity; congruence).
+    rewrite E. split; [apply ngood4_raw; exact R | exact J].
+  - pose proof (proj1 (proj1 (ngood4_doc ks obj) G)) as Ek. subst ks.
+    split; [apply ngood4_raw; exact R | exact J].
+  - split; [apply ngood4_raw; exact R | exact J].
+Qed.
+
+(* what deepCopy returns, for every node *)
+Lemma deep_copy4_cases g v :
+  fst (deep_copy4 g v) = NNil \/ fst (deep_copy4 g v) = raw_null4 \/
+  fst (deep_copy4 g v) = NRaw (escape_tree true (render4 v)).
+Proof.
+  destruct v as [|t|ks obj|ns]; [left; reflexivity| | |]; unfold deep_copy4; cbn [fst];
+    destruct (render4 _); auto.
 Qed.
 
 (* ---- the walks of copy ---- *)
@@ -1693,10 +1760,61 @@ Qed.
 Definition src4 (r : Rfc6902.res ojson) : Rfc6902.res ojson :=
   match r with RFail FMissingMember => ROk ONull | x => x end.
 
+(* the node a copy hands to deepCopy (the source, read again after the walk to the destination) is
+   ImplV4.copy_arg4, here with the named leaf functions *)
+Lemma copy_arg4_unfold g st op :
+  copy_arg4 g st op =
+  match op_str op (B "from"), op_str op (B "path") with
+  | Ok from, Ok path =>
+      match find4 g (r4 st) from (get_fn4 g) with
+      | (Some (Ok _), c1) =>
+          match find4 g c1 path unit_fn4 with
+          | (Some _, c2) =>
+              match find4 g c2 from (get_fn4 g) with
+              | (Some (Ok v), _) => Some v
+              | _ => None
+              end
+          | (None, _) => None
+          end
+      | _ => None
+      end
+  | _, _ => None
+  end.
+Proof. reflexivity. Qed.
+
+(* THE THIRD DEVIATION, excluded by hypothesis: a copy whose source is a null that an earlier add /
+   replace of this patch wrote (the operation value null, raw_nil4).  deepCopy stores the raw text
+   null; a later path through that member is walked like an empty object (V4NullWalk.v) where RFC
+   6902 says the path does not exist.  A null of the document, a null inside a composite value and
+   an absent member are nil nodes: copying them is covered. *)
+Definition copy_clean4 (g : opts4) (st : state4) (op : operation) : Prop :=
+  copy_arg4 g st op <> Some raw_nil4.
+
+(* a copy whose source member is absent reads the nil node (twice): it is clean *)
+Lemma copy_clean4_absent g st op rf r :
+  sgood4 st ->
+  op_str op (B "from") = Ok (x2f :: rf) -> Forall tok_dom4 (map decode_token (split_slash rf)) ->
+  op_str op (B "path") = Ok (x2f :: r) -> Forall tok_dom4 (map decode_token (split_slash r)) ->
+  get_at (d4 g) (ptoks rf) (sval4 st) = RFail FMissingMember -> copy_clean4 g st op.
+Proof.
+  intros G Hf Df Hp Dp GA. unfold copy_clean4. rewrite copy_arg4_unfold, Hf, Hp.
+  pose proof (find4_get_sim g (r4 st) rf G Df) as F. unfold sval4 in GA. rewrite GA in F.
+  destruct F as [c1 [F1 [F2 F3]]]. rewrite F1.
+  pose proof (find4_unit_sim g c1 r F3 Dp) as FU.
+  destruct (descend (d4 g) (map decode_token (path_parts r)) (cval4 c1)) as [p|].
+  - destruct (is_container p).
+    + destruct FU as [c2 [U1 [U2 U3]]]. rewrite U1.
+      pose proof (find4_get_sim g c2 rf U3 Df) as F'. rewrite U2, F2, GA in F'.
+      destruct F' as [c3 [F1' _]]. rewrite F1'. discriminate.
+    + destruct FU as [c2 U1]. rewrite U1. discriminate.
+  - destruct FU as [c2 U1]. rewrite U1. discriminate.
+Qed.
+
 Lemma step4_copy_sim g st op rf r :
   sgood4 st -> op_kind op = KCopy -> g_limit g = 0%Z ->
   op_str op (B "from") = Ok (x2f :: rf) -> Forall tok_dom4 (map decode_token (split_slash rf)) ->
   op_str op (B "path") = Ok (x2f :: r) -> Forall tok_dom4 (map decode_token (split_slash r)) ->
+  copy_clean4 g st op ->
   match src4 (get_at (d4 g) (ptoks rf) (sval4 st)) with
   | ROk j =>
       exists jc, veq jc j /\
@@ -1707,7 +1825,7 @@ Lemma step4_copy_sim g st op rf r :
   | RFail cz => exists e, step4 g st op = Err e /\ cause_rel cz e
   end.
 Proof.
-  intros G K Lim Hf Df Hp Dp. set (c := r4 st) in *. unfold sval4. fold c.
+  intros G K Lim Hf Df Hp Dp NRN. set (c := r4 st) in *. unfold sval4. fold c.
   rewrite (step4_copy g st op K), Hf. fold c.
   (* the source, read twice with the same result *)
   assert (Src : forall c0, cgood4 c0 -> cval4 c0 = cval4 c ->
@@ -1742,7 +1860,9 @@ Proof.
        rewrite (Unreach j eq_refl). exists EMissing. split; reflexivity. }
   destruct FU as [c2 [U1 [U2 U3]]]. rewrite U1.
   pose proof (Src c2 U3 U2) as S2. destruct S2 as [v [c3 [G1 [G2 [G3 _]]]]]. rewrite G1. cbn [lift4].
-  destruct (deep_copy4_sim g v G3) as [DC1 DC2]. destruct (deep_copy4 g v) as [cp sz]. cbn [fst] in *.
+  assert (Nv : v <> raw_nil4).
+  { intro E. apply NRN. rewrite copy_arg4_unfold. fold c. rewrite Hf, Hp, F1, U1, G1, E. reflexivity. }
+  destruct (deep_copy4_sim g v G3 Nv) as [DC1 DC2]. destruct (deep_copy4 g v) as [cp sz]. cbn [fst] in *.
   rewrite Lim. change ((0 <? 0)%Z) with false. cbn [andb].
   exists (aval4 cp). split; [split; [rewrite <- G2; exact DC2 | split; [apply ngood4_onodup; exact DC1 | exact Oj]]|].
   pose proof (add_find4_sim g c2 r cp U3 Dp DC1) as AF. rewrite U2 in AF.
@@ -2057,15 +2177,15 @@ Proof.
 Qed.
 
 Lemma step4_copy_veq g st op :
-  sgood4 st -> g_limit g = 0%Z -> op_dom4 op -> op_kind op = KCopy ->
+  sgood4 st -> g_limit g = 0%Z -> op_dom4 op -> op_kind op = KCopy -> copy_clean4 g st op ->
   match rfc4_step (d4 g) (sval4 st) (den_op op) with
   | ROk x => exists st', step4 g st op = Ok st' /\ veq (sval4 st') x /\ sgood4 st'
   | RFail cz => exists e, step4 g st op = Err e /\ cause_rel cz e
   end.
 Proof.
-  intros G Lim [Vg [path [Hp K]]] Ek. rewrite Ek in K. destruct K as [[r [-> D]] [from [Hf [rf [-> Df]]]]].
+  intros G Lim [Vg [path [Hp K]]] Ek CC. rewrite Ek in K. destruct K as [[r [-> D]] [from [Hf [rf [-> Df]]]]].
   rewrite (rfc4_copy_char (d4 g) (sval4 st) op rf r Ek Hf Hp).
-  pose proof (step4_copy_sim g st op rf r G Ek Lim Hf Df Hp D) as S.
+  pose proof (step4_copy_sim g st op rf r G Ek Lim Hf Df Hp D CC) as S.
   destruct (src4 (get_at (d4 g) (ptoks rf) (sval4 st))) as [j|cz]; [|exact S].
   destruct S as [jc [J S]].
   assert (Na : onodup (sval4 st) = true) by (apply ngood4_onodup; exact (proj1 G)).
@@ -2081,15 +2201,37 @@ Qed.
 Lemma opk_eq_copy (k : opk) : k = KCopy \/ k <> KCopy.
 Proof. destruct k; auto; right; discriminate. Qed.
 
+(* the whole run: no copy is handed the operation value null: ImplV4.no_null_copy4 (a boolean that
+   evaluates the model) *)
+Lemma is_raw_nil4_clean g st op : is_raw_nil4 (copy_arg4 g st op) = false -> copy_clean4 g st op.
+Proof. intros H E. rewrite E in H. discriminate. Qed.
+
+Lemma no_null_copy4_head g st op rest :
+  no_null_copy4 g st (op :: rest) = true ->
+  (op_kind op = KCopy -> copy_clean4 g st op) /\
+  (forall st', step4 g st op = Ok st' -> no_null_copy4 g st' rest = true).
+Proof.
+  cbn [no_null_copy4]. intro H. apply andb_prop in H as [H1 H2]. split.
+  - intro K. rewrite K in H1. apply is_raw_nil4_clean. destruct (is_raw_nil4 _); [discriminate | reflexivity].
+  - intros st' E. rewrite E in H2. exact H2.
+Qed.
+
+Lemma no_copy_no_null_copy4 g p : Forall (fun op => op_kind op <> KCopy) p -> forall st, no_null_copy4 g st p = true.
+Proof.
+  induction 1 as [|op p Hop Hp IH]; intro st; [reflexivity|]. cbn [no_null_copy4].
+  destruct (op_kind op); try congruence; cbn [negb andb]; destruct (step4 g st op); auto.
+Qed.
+
 (* one operation of any kind, from a state whose value is the reference document up to member order *)
 Theorem step4_sim g st op doc :
   g_limit g = 0%Z -> sgood4 st -> veq (sval4 st) doc -> op_dom4 op ->
+  (op_kind op = KCopy -> copy_clean4 g st op) ->
   match rfc4_step (d4 g) doc (den_op op) with
   | ROk j' => exists st', step4 g st op = Ok st' /\ veq (sval4 st') j' /\ sgood4 st'
   | RFail cz => exists e, step4 g st op = Err e /\ cause_rel cz e
   end.
 Proof.
-  intros Lim G V D.
+  intros Lim G V D CC.
   pose proof (rfc4_step_veq (d4 g) (sval4 st) doc (den_op op) (den_op_ok op (proj1 D)) V) as C.
   assert (S : match rfc4_step (d4 g) (sval4 st) (den_op op) with
               | ROk x => exists st', step4 g st op = Ok st' /\ veq (sval4 st') x /\ sgood4 st'
@@ -2108,18 +2250,18 @@ Proof.
 Qed.
 
 Theorem apply4_sim g : g_limit g = 0%Z -> forall p i st doc,
-  sgood4 st -> veq (sval4 st) doc -> Forall op_dom4 p ->
+  sgood4 st -> veq (sval4 st) doc -> Forall op_dom4 p -> no_null_copy4 g st p = true ->
   match rfc4_apply_from (d4 g) i doc (map den_op p) with
   | Done doc' => exists st', apply4_from g i st p = (Ok st', (i + length p)%nat) /\ veq (sval4 st') doc' /\ sgood4 st'
   | Failed j cz => exists e, apply4_from g i st p = (Err e, j) /\ cause_rel cz e
   end.
 Proof.
-  intro Lim. induction p as [|op p IH]; intros i st doc G V D; cbn [map rfc4_apply_from apply4_from length].
+  intro Lim. induction p as [|op p IH]; intros i st doc G V D NC; cbn [map rfc4_apply_from apply4_from length].
   - exists st. rewrite Nat.add_0_r. auto.
-  - inversion D as [|? ? Dop Dp]; subst.
-    pose proof (step4_sim g st op doc Lim G V Dop) as S.
+  - inversion D as [|? ? Dop Dp]; subst. apply no_null_copy4_head in NC as [NC1 NC2].
+    pose proof (step4_sim g st op doc Lim G V Dop NC1) as S.
     destruct (rfc4_step (d4 g) doc (den_op op)) as [j'|cz].
-    + destruct S as [st' [S1 [S2 S3]]]. rewrite S1. specialize (IH (S i) st' j' S3 S2 Dp).
+    + destruct S as [st' [S1 [S2 S3]]]. rewrite S1. specialize (IH (S i) st' j' S3 S2 Dp (NC2 st' S1)).
       destruct (rfc4_apply_from (d4 g) (S i) j' (map den_op p)) as [doc'|j cz].
       * destruct IH as [st2 [I1 [I2 I3]]]. exists st2. rewrite I1. replace (S i + length p)%nat with (i + S (length p))%nat by lia. auto.
       * exact IH.
@@ -2129,13 +2271,13 @@ Qed.
 (* against RFC 6902 itself, for patches that avoid the two deviations *)
 Theorem apply4_rfc g p i st doc :
   g_limit g = 0%Z -> sgood4 st -> veq (sval4 st) doc -> Forall op_dom4 p ->
-  no_deviation (d4 g) doc (map den_op p) = true ->
+  no_deviation (d4 g) doc (map den_op p) = true -> no_null_copy4 g st p = true ->
   match rfc_apply_from (d4 g) i doc (map den_op p) with
   | Done doc' => exists st', apply4_from g i st p = (Ok st', (i + length p)%nat) /\ veq (sval4 st') doc' /\ sgood4 st'
   | Failed j cz => exists e, apply4_from g i st p = (Err e, j) /\ cause_rel cz e
   end.
 Proof.
-  intros Lim G V D ND. rewrite <- (rfc4_apply_agree (d4 g) (map den_op p) i doc ND). apply apply4_sim; auto.
+  intros Lim G V D ND NC. rewrite <- (rfc4_apply_agree (d4 g) (map den_op p) i doc ND). apply apply4_sim; auto.
 Qed.
 
 (* Apply on bytes, all six operations: the result is the RFC result up to member order *)
@@ -2143,23 +2285,34 @@ Theorem api_apply4_sim g indent p doc t :
   g_limit g = 0%Z ->
   parse doc = Some t -> root_container t = true -> tnodup t = true -> tplain t -> tkeys t ->
   Forall op_dom4 p -> no_deviation (d4 g) (den t) (map den_op p) = true ->
+  (forall c, api_start4 t = Some c -> no_null_copy4 g (mkState4 c 0) p = true) ->
   match rfc_apply (d4 g) (den t) (map den_op p) with
   | Done j => exists n, api_apply4 g indent p doc = Out4 (output4 indent (render4 n)) /\ veq (aval4 n) j /\ ngood4 n
   | Failed i cz => exists e, api_apply4 g indent p doc = Err4 (Some i) e /\ cause_rel cz e
   end.
 Proof.
-  intros Lim P RC T Pl Ks D ND. unfold api_apply4. destruct doc as [|b doc]; [rewrite parse_nil in P; discriminate|].
+  intros Lim P RC T Pl Ks D ND NC. unfold api_apply4. destruct doc as [|b doc]; [rewrite parse_nil in P; discriminate|].
   rewrite P. pose proof (parse_tlit _ _ P) as L.
   assert (R : raw4 t) by (split; [destruct t; discriminate | repeat split; auto]).
   destruct (start4_good t RC R) as [c [S1 [S2 S3]]]. rewrite S1.
   assert (V : veq (sval4 (mkState4 c 0)) (den t)).
   { unfold sval4. cbn [r4]. rewrite S3. apply veq_refl. exact T. }
-  pose proof (apply4_rfc g p 0%nat (mkState4 c 0) (den t) Lim S2 V D ND) as AS. unfold rfc_apply.
+  pose proof (apply4_rfc g p 0%nat (mkState4 c 0) (den t) Lim S2 V D ND (NC c S1)) as AS. unfold rfc_apply.
   destruct (rfc_apply_from (d4 g) 0 (den t) (map den_op p)) as [j|i cz].
   - destruct AS as [st' [A1 [A2 A3]]]. rewrite A1. exists (node_of_con4 (r4 st')).
     unfold sgood4, cgood4 in A3. destruct A3 as [A3 A4]. unfold sval4, cval4 in A2.
     destruct (r4 st') eqn:Er; [| congruence |]; (split; [reflexivity|]; split; [exact A2 | exact A3]).
   - destruct AS as [e [A1 A2]]. rewrite A1. eauto.
+Qed.
+
+(* the hypothesis of api_apply4_sim on the run, from the boolean on the bytes (ImplV4.api_no_null_copy4:
+   what the correspondence oracle can evaluate) *)
+Lemma api_no_null_copy4_start g p doc t :
+  parse doc = Some t -> root_container t = true -> api_no_null_copy4 g p doc = true ->
+  forall c, api_start4 t = Some c -> no_null_copy4 g (mkState4 c 0) p = true.
+Proof.
+  intros P RC H c Hc. unfold api_no_null_copy4 in H. rewrite P in H.
+  destruct t; try discriminate; inversion Hc; subst; exact H.
 Qed.
 
 (* ================= the documented deviations, stated on their own ================= *)
@@ -2202,7 +2355,8 @@ Proof.
   assert (GA : get_at (d4 g) (ptoks rf) (sval4 st) = RFail FMissingMember).
   { unfold ptoks. rewrite get_at_snoc, Ed. cbn [get_leaf]. rewrite Ea. reflexivity. }
   split; [exact GA|].
-  pose proof (step4_copy_sim g st op rf r G K Lim Hf Df Hp Dp) as S. rewrite GA in S. cbn [src4] in S.
+  pose proof (step4_copy_sim g st op rf r G K Lim Hf Df Hp Dp (copy_clean4_absent g st op rf r G Hf Df Hp Dp GA)) as S.
+  rewrite GA in S. cbn [src4] in S.
   destruct S as [jc [V S]]. pose proof (veq_shape _ _ V) as Sh. destruct jc; simpl in Sh; try contradiction; try discriminate. exact S.
 Qed.
 
@@ -2216,7 +2370,11 @@ Theorem step4_test_absent g st op r ms :
   then exists st', step4 g st op = Ok st' /\ sval4 st' = sval4 st /\ sgood4 st'
   else step4 g st op = Err ETestFailed.
 Proof.
-  intros G K Hp D Vg Ed Ea. pose proof (step4_test_sim g st op r G K Hp D Vg) as S.
+  intros G K Hp D Vg Ed Ea.
+  assert (HV : has_value4 op \/
+               forall p, descend (d4 g) (map decode_token (path_parts r)) (sval4 st) = Some p -> child_at (d4 g) p (path_key r) = None).
+  { right. intros p Hd. rewrite Ed in Hd. inversion Hd; subst p. cbn [child_at]. exact Ea. }
+  pose proof (step4_test_sim g st op r G K Hp D Vg HV) as S.
   unfold ptoks in S. rewrite at_parent_snoc, Ed in S. cbn [test_leaf] in S. rewrite Ea, jeq_null_l in S.
   destruct (onull (ref_value op)); cbn [bind] in S.
   - destruct S as [st' [S1 [S2 [S3 _]]]]. exists st'. split; [exact S1|]. split; [|exact S3].
